@@ -169,7 +169,7 @@ def nulls_in(v, path, acc):
     return acc
 
 
-def check_case(schema, engine, kind, fname, ftype, label, value, out, shape):
+def check_case(schema, engine, kind, fname, ftype, label, value, out, shape, config="default"):
     text = "{ %s%s }" % (fname, selection_for(kind))
     scn = Scenario(root={}, overrides={(fname,): value})
     out["counts"]["evaluations"] += 1
@@ -226,8 +226,8 @@ def check_case(schema, engine, kind, fname, ftype, label, value, out, shape):
     if clause:
         out["violations"].append({
             "signature": "%s|%s|%s" % (clause.split(":")[0], kind, label if "[" not in label else "list-of"),
-            "summary": "%s: field %s: %s, resolver returned %s -> %r" % (clause, fname, shape.replace("T", kind), label, resp),
-            "replay": {"kind": kind, "shape": shape, "label": label, "tier_shapes": len(shape)}})
+            "summary": "%s: field %s: %s [%s completion], resolver returned %s -> %r" % (clause, fname, shape.replace("T", kind), config, label, resp),
+            "replay": {"kind": kind, "shape": shape, "label": label, "tier_shapes": len(shape), "config": config}})
 
 
 def _te(label, path):
@@ -282,6 +282,12 @@ def run_shard(item):
     labels = labels_for(shape, tier)
     for label in labels:
         check_case(schema, engine, kind, fname, ftype, label, value_of(label, fname), out, shape)
+    if "[" in shape:
+        # lists completed one item after the other (engine option) and sibling fields awaited in place
+        seq = explore.engine_for(("W-seq", tier), schema, coerce_list_concurrently=False, coerce_parent_concurrently=False,
+                                 typecfg={"resolver_kwargs_all": {"list_concurrently": False, "parent_concurrently": False}})
+        for label in labels:
+            check_case(schema, seq, kind, fname, ftype, label, value_of(label, fname), out, shape, config="sequential")
     out["counts"]["fields"] = 1
     out["counts"]["cases"] = len(labels)
     if si == 2:
@@ -301,7 +307,7 @@ def finish(agg, tier):
         "rule": "a case = (field of schema W: wrapper shape x leaf kind, resolver return value); the universe has %d values "
                 "(every JSON shape, ints/floats at and beyond the 32-bit / IEEE limits, numeric strings, bytes, tuples, sets, "
                 "generators, objects, exception instances, dicts naming valid/unknown/foreign runtime types); list shapes also get "
-                "every singleton [u] and every pair from a 12-value core. %d fields. non-trivial = cases where the engine had to "
+                "every singleton [u] and every pair from a 13-value core, under the default engine and under sequential list / sibling completion. %d fields. non-trivial = cases where the engine had to "
                 "null something (errors reported)" % (len(UNIVERSE), c.get("fields", 0)),
         "exhaustive": True,
     }
@@ -314,8 +320,13 @@ def replay(rec):
         if r["shape"] in shapes:
             break
     si = shapes.index(r["shape"])
-    engine = harness.build_engine(schema)
+    if r.get("config") == "sequential":
+        engine = harness.build_engine(schema, coerce_list_concurrently=False, coerce_parent_concurrently=False,
+                                      typecfg={"resolver_kwargs_all": {"list_concurrently": False, "parent_concurrently": False}})
+    else:
+        engine = harness.build_engine(schema)
     fname = seeds.w_field_name(r["kind"], si)
     out = {"counts": {"evaluations": 0}, "tables": {"outcomes": {}}, "violations": []}
-    check_case(schema, engine, r["kind"], fname, schema.field_def("Query", fname).type, r["label"], value_of(r["label"], fname), out, r["shape"])
+    check_case(schema, engine, r["kind"], fname, schema.field_def("Query", fname).type, r["label"], value_of(r["label"], fname), out, r["shape"],
+               config=r.get("config", "default"))
     return out["violations"]
